@@ -2,7 +2,7 @@ import GlueVerif.Lemmas.C11Bytes
 /-!
 Helper lemmas for C11, part 3: IEEE equality vs. bit equality after `+ 0`, the n-n byte test
 `nnMatch` is tuple equality by value, the `|=` loops of the 1-n / n-1 shapes, and
-`Impl.joinMask = jmOf Impl.rowMatch`, `Impl.rowMatch = Spec.rowMatch`.
+`Impl.joinMask = jmOf Impl.rowMatch`, `Impl.rowMatch = Np.rowMatch`.
 -/
 namespace GlueVerif.Joins.Lemmas
 open GlueVerif.Joins
@@ -267,8 +267,8 @@ theorem implJoinMask_eq_jmOf (kl kr : List (List Key)) (n1 n2 : Nat) :
 /-- On legal key tuples the coded row test is membership by value. -/
 theorem implRowMatch_eq_spec (n1 n2 : Nat) (l r : List Key) (hl : l.length ≤ n1) (hr : r.length ≤ n2)
     (hok : n1 = n2 → n1 ≠ 1 → rowsOk l r = true) :
-    Impl.rowMatch n1 n2 l r = Spec.rowMatch n1 n2 l r := by
-  unfold Impl.rowMatch Spec.rowMatch
+    Impl.rowMatch n1 n2 l r = Np.rowMatch n1 n2 l r := by
+  unfold Impl.rowMatch Np.rowMatch
   by_cases h11 : n1 = 1 ∧ n2 = 1
   · simp [h11]
   · simp only [h11, if_false]
